@@ -99,7 +99,8 @@ def fetchAtom (e : GEnv) : String → Option Bool
 /-- what the source's table says for a push; the trailing `Force=…` marker is not a guard -/
 def pushAtom (e : GEnv) : String → Option Bool
   | "err != nil" => some false
-  | "ok" => some (!e.isNil)
+  | "fastForward, err := ref.IsAncestorOf(db, v, sum); err != nil" => some false
+  | "v, ok := remoteRefs[dst]; ok" => some (!e.isNil)
   | "string(v) == string(sum)" => some e.eq
   | "sum == nil" => some false            -- deletions are not modelled (the local ref exists)
   | "sum != nil" => some true
